@@ -13,6 +13,11 @@
 #     any_operation_state_holder
 #   * function_storage_size and the heap conditions of vtable::allocate / vtable::_deallocate
 #       if (sizeof(T) <op> storage_size)
+#   * whether vtable::allocate / _deallocate look at alignof(T) at all (they do not: finding C18:FUN:misaligned) and the
+#     declaration of function_base's inline buffer (no alignas)
+#   * the ORDER of the primitive steps of every special member of function_base / basic_function, of the vtable
+#     leaves (allocate, _deallocate, copyable_vtable::_copy) and of movable_/copyable_sbo_storage (both settings of
+#     PIKA_DETAIL_ENABLE_ANY_SENDER_SBO), as `prog` terms (see step_lists below)
 import re
 
 import gen
@@ -70,6 +75,430 @@ def bool_expr(txt, names):
         else:
             raise TieError('unexpected token %r in the result of can_use_embedded_storage' % t)
     return ' '.join(out)
+
+
+# ---------------------------------------------------------------------------------------------
+# step lists of the special members (Task "tie the ORDER of the primitive steps to the source")
+#
+# A member function body is parsed into a tree of statements
+#     stmt ::= Do <prim> | If <cond> [stmt...] [stmt...]
+# by a small statement tokenizer (balanced braces / parentheses, `if (...) s [else s]`, `if constexpr`,
+# constructor initialiser lists, the two-valued preprocessor conditional on
+# PIKA_DETAIL_ENABLE_ANY_SENDER_SBO).  Every simple statement and every condition must be one of the
+# shapes listed in the tables below (compared with all white space removed); anything else raises
+# TieError naming the member, the line and the statement text.  Declarations that have no run-time
+# effect (`using`, `static_assert`) are skipped.
+CPP = 'libs/pika/functional/src/basic_function.cpp'
+CVT = 'libs/pika/functional/include/pika/functional/detail/vtable/copyable_vtable.hpp'
+
+SBO_MACRO = 'PIKA_DETAIL_ENABLE_ANY_SENDER_SBO'
+
+# ---- function family: statement text (white space removed) -> primitive step
+F_PRIMS = {
+    'vptr(other.vptr)': 'FInitVptrFromOther',
+    'object(other.object)': 'FInitObjectFromOther',
+    'object=vptr->copy(storage,detail::function_storage_size,other.object,false);': 'FCopyIntoOwnStorage',
+    'object=vptr->copy(object,std::size_t(-1),other.object,true);': 'FCopyReuseObject',
+    'std::memcpy(storage,other.storage,function_storage_size);': 'FMemcpyBuffer',
+    'object=&storage;': 'FObjectToOwnBuffer',
+    'other.vptr=empty_vptr;': 'FOtherVptrEmpty',
+    'other.object=nullptr;': 'FOtherObjectNull',
+    'destroy();': 'FDestroy',
+    'PIKA_ASSERT(other.object!=nullptr);': 'FAssert',
+    'PIKA_ASSERT(object!=nullptr);': 'FAssert',
+    'vptr=other.vptr;': 'FVptrFromOther',
+    'object=nullptr;': 'FObjectNull',
+    'swap(other);': 'FSwapWithOther',
+    'other.reset(empty_vtable);': 'FOtherReset',
+    'vptr->deallocate(object,function_storage_size,true);': 'FDeallocateDestroy',
+    'vptr=empty_vptr;': 'FVptrEmpty',
+    'std::swap(vptr,f.vptr);': 'FSwapVptr',
+    'std::swap(object,f.object);': 'FSwapObject',
+    'std::swap(storage,f.storage);': 'FSwapBuffer',
+    'f.object=&f.storage;': 'FOtherObjectToItsBuffer',
+    # basic_function
+    'base_type(other,get_empty_vtable())': 'BBaseCopyCtor',
+    'base_type(std::move(other),get_empty_vtable())': 'BBaseMoveCtor',
+    'base_type(get_empty_vtable())': 'BBaseEmptyCtor',
+    'base_type::op_assign(other,get_empty_vtable());': 'BOpAssignCopy',
+    'base_type::op_assign(std::move(other),get_empty_vtable());': 'BOpAssignMove',
+    'return*this;': 'BReturnThis',
+    'base_type::reset(get_empty_vtable());': 'BReset',
+    'vtableconst*f_vptr=get_vtable<T>();': 'BGetVtable',
+    'void*buffer=nullptr;': 'BBufferNull',
+    'buffer=object;': 'BBufferIsObject',
+    'vtable::templateget<T>(object).~T();': 'BDestroyInPlace',
+    'vptr=f_vptr;': 'BVptrFromArg',
+    'buffer=vtable::templateallocate<T>(storage,function_storage_size);': 'BAllocate',
+    'object=::new(buffer)T(std::forward<F>(f));': 'BConstruct',
+    # vtable leaves
+    'vtable::get<T>(storage).~T();': 'VDestroyT',
+    'get<T>(obj).~T();': 'VDestroyT',
+    'void*buffer=vtable::allocate<T>(storage,storage_size);': 'VAllocate',
+    'return::new(buffer)T(vtable::get<T>(src));': 'VConstructCopy',
+    'returnnewaligned_storage_helper<T>;': 'VNewBlock',
+    'returnstorage;': 'VReturnStorage',
+    'deletestatic_cast<aligned_storage_helper<T>*>(obj);': 'VDeleteBlock',
+}
+F_CONDS = {
+    'other.object!=nullptr': 'COtherObjectNonNull',
+    'object==&other.storage': 'CObjectIsOtherBuffer',
+    'vptr==other.vptr': 'CVptrEqOther',
+    'this!=&other&&object': 'CNotSelfAndObject',
+    'this!=&other': 'CNotSelf',
+    'object!=nullptr': 'CObjectNonNull',
+    'object==&f.storage': 'CObjectIsOtherBuffer',
+    'f.object==&storage': 'COtherObjectIsOwnBuffer',
+    '!detail::is_empty_function(f)': 'CArgNonEmpty',
+    'vptr==f_vptr': 'CVptrEqArg',
+    'destroy': 'CDestroyFlag',
+    'sizeof(T)>storage_size': 'CSizeGtStorage',
+}
+# ---- sender family
+S_PRIMS = {
+    'PIKA_ASSERT(!empty());': 'SAssert',
+    'PIKA_ASSERT(empty());': 'SAssert',
+    'PIKA_ASSERT(&other!=this);': 'SAssert',
+    'PIKA_ASSERT(static_cast<void*>(&other)!=static_cast<void*>(this));': 'SAssert',
+    'get().~base_type();': 'SDestroyEmbedded',
+    'deleteheap_storage;': 'SDeleteHeap',
+    'heap_storage=nullptr;': 'SHeapNull',
+    'reset_vtable();': 'SResetVtable',
+    'autop=reinterpret_cast<base_type*>(&embedded_storage);': 'SPointerToOwnBuffer',
+    'base_type*p=reinterpret_cast<base_type*>(&embedded_storage);': 'SPointerToOwnBuffer',
+    'Impl*p=reinterpret_cast<Impl*>(&embedded_storage);': 'SPointerToOwnBuffer',
+    'other.get().move_into(p);': 'SMoveInto',
+    'other.get().clone_into(p);': 'SCloneInto',
+    'object=p;': 'SObjectIsP',
+    'other.get().~base_type();': 'SDestroyOtherEmbedded',
+    'heap_storage=other.heap_storage;': 'SStealHeap',
+    'other.heap_storage=nullptr;': 'SOtherHeapNull',
+    'object=heap_storage;': 'SObjectIsHeap',
+    'other.reset_vtable();': 'SOtherResetVtable',
+    'release();': 'SRelease',
+    'move_assign(std::move(other));': 'SMoveAssign',
+    'copy_assign(other);': 'SCopyAssign',
+    'return*this;': 'SReturnThis',
+    'new(p)Impl(std::forward<Ts>(ts)...);': 'SConstructEmbedded',
+    'heap_storage=newImpl(std::forward<Ts>(ts)...);': 'SNewHeap',
+    'heap_storage=other.get().clone();': 'SCloneHeap',
+    'storage_base_type()': 'SBaseDefaultCtor',
+}
+S_CONDS = {
+    'using_embedded_storage()': 'CUsingEmbedded',
+    'other.using_embedded_storage()': 'COtherUsingEmbedded',
+    '!other.empty()': 'COtherNonEmpty',
+    '!empty()': 'CNonEmpty',
+    '&other!=this': 'CNotSelfS',
+    'static_cast<void*>(&other)!=static_cast<void*>(this)': 'CNotSelfS',
+    'can_use_embedded_storage<Impl>()': 'CCanEmbed',
+}
+SKIP = re.compile(r'^(using\b|static_assert\b)')
+
+
+def _lines_before(src, pos):
+    return src.count('\n', 0, pos) + 1
+
+
+def blank_comments(src):
+    """comments -> spaces, keeping every newline (line numbers stay those of the file)"""
+    def bl(m):
+        return re.sub(r'[^\n]', ' ', m.group(0))
+    src = re.sub(r'/\*.*?\*/', bl, src, flags=re.S)
+    return re.sub(r'//[^\n]*', bl, src)
+
+
+def preprocess(src, sbo):
+    """resolve the #if defined(PIKA_DETAIL_ENABLE_ANY_SENDER_SBO) / #else / #endif conditionals (lines of the
+    inactive branch and the directives themselves become empty lines); other directives are left alone"""
+    out = []
+    stack = []
+    for ln in src.split('\n'):
+        s = ln.strip()
+        if re.fullmatch(r'#\s*if\s+defined\s*\(\s*%s\s*\)' % SBO_MACRO, s):
+            stack.append(['sbo', sbo])
+            out.append('')
+        elif re.match(r'#\s*if', s):
+            stack.append(['other', True])
+            out.append(ln)
+        elif re.match(r'#\s*else\b', s) and stack and stack[-1][0] == 'sbo':
+            stack[-1][1] = not stack[-1][1]
+            out.append('')
+        elif re.match(r'#\s*endif\b', s):
+            if not stack:
+                raise TieError('unbalanced #endif in ' + ANY)
+            k = stack.pop()
+            out.append('' if k[0] == 'sbo' else ln)
+        else:
+            out.append(ln if all(a for (k, a) in stack if k == 'sbo') else '')
+    if stack:
+        raise TieError('unbalanced #if in ' + ANY)
+    return '\n'.join(out)
+
+
+def match_close(src, i, o, c):
+    """src[i] == o; index of the matching c"""
+    depth = 0
+    for k in range(i, len(src)):
+        if src[k] == o:
+            depth += 1
+        elif src[k] == c:
+            depth -= 1
+            if depth == 0:
+                return k
+    raise TieError('unbalanced %s%s' % (o, c))
+
+
+class Member:
+    def __init__(self, name, file, line, inits, body, body_off, src):
+        self.name, self.file, self.line, self.inits, self.body, self.body_off, self.src = name, file, line, inits, body, body_off, src
+
+
+def find_member(src, file, name, sig_re, nth=0, count=1):
+    """the definition whose head matches sig_re (up to and including the closing parenthesis of the parameter
+    list); returns initialiser list and body"""
+    ms = [m for m in re.finditer(sig_re, src)]
+    defs = []
+    for m in ms:
+        k = m.end()
+        mm = re.match(r'(?:\s|const\b|noexcept\b|&(?!&))*', src[k:])     # cv / ref qualifiers / noexcept
+        k += mm.end()
+        inits = []
+        if src[k] == ':':
+            b = k + 1
+            depth = 0
+            start = b
+            while True:
+                ch = src[b]
+                if ch in '(<':
+                    depth += 1
+                elif ch in ')>':
+                    depth -= 1
+                elif ch == ',' and depth == 0:
+                    inits.append((src[start:b], start))
+                    start = b + 1
+                elif ch == '{' and depth == 0:
+                    inits.append((src[start:b], start))
+                    break
+                b += 1
+            k = b
+        if src[k] != '{':
+            continue            # a declaration (`;`), `= default`, `= delete`
+        e = match_close(src, k, '{', '}')
+        defs.append(Member(name, file, _lines_before(src, m.start()), inits, src[k + 1:e], k + 1, src))
+    if len(defs) != count:
+        raise TieError('%s: expected %d definition(s) of %s, found %d' % (file, count, name, len(defs)))
+    return defs[nth]
+
+
+def parse_stmts(mem, text, off, prims, conds):
+    """text -> list of ('do', prim) | ('if', cond, [..], [..])"""
+    out = []
+    i = 0
+    n = len(text)
+
+    def where(p):
+        return '%s:%d (%s)' % (mem.file, _lines_before(mem.src, off + p), mem.name)
+
+    def one_stmt(i):
+        """parse one statement starting at i (after white space); returns (nodes, next index)"""
+        while i < n and text[i].isspace():
+            i += 1
+        if i >= n:
+            return [], i
+        if text[i] == '{':
+            e = match_close(text, i, '{', '}')
+            return parse_stmts(mem, text[i + 1:e], off + i + 1, prims, conds), e + 1
+        m = re.match(r'if\s*(constexpr\s*)?\(', text[i:])
+        if m:
+            p = i + m.end() - 1
+            e = match_close(text, p, '(', ')')
+            c = re.sub(r'\s+', '', text[p + 1:e])
+            if c not in conds:
+                raise TieError('%s: unknown condition shape `%s`' % (where(i), text[p + 1:e].strip()))
+            th, j = one_stmt(e + 1)
+            k = j
+            while k < n and text[k].isspace():
+                k += 1
+            el = []
+            if re.match(r'else\b', text[k:]):
+                el, j = one_stmt(k + 4)
+            return [('if', conds[c], th, el)], j
+        if re.match(r'(else|for|while|do|switch|try|catch|goto)\b', text[i:]):
+            raise TieError('%s: unsupported control structure `%s`' % (where(i), text[i:i + 40].split('\n')[0]))
+        # simple statement: up to the `;` at nesting depth 0
+        depth = 0
+        k = i
+        while k < n:
+            ch = text[k]
+            if ch in '({[':
+                depth += 1
+            elif ch in ')}]':
+                depth -= 1
+            elif ch == ';' and depth == 0:
+                break
+            k += 1
+        if k >= n:
+            raise TieError('%s: statement without `;`: `%s`' % (where(i), text[i:i + 60].strip()))
+        raw = text[i:k + 1]
+        s = re.sub(r'\s+', '', raw)
+        if SKIP.match(raw.strip()):
+            return [], k + 1
+        if s not in prims:
+            raise TieError('%s: unknown statement shape `%s`' % (where(i), ' '.join(raw.split())))
+        return [('do', prims[s])], k + 1
+
+    while True:
+        nodes, i = one_stmt(i)
+        out += nodes
+        while i < n and text[i].isspace():
+            i += 1
+        if i >= n:
+            return out
+
+
+def member_prog(mem, prims, conds):
+    nodes = []
+    for (t, p) in mem.inits:
+        s = re.sub(r'\s+', '', t)
+        if s not in prims:
+            raise TieError('%s:%d (%s): unknown member initialiser `%s`' % (mem.file, _lines_before(mem.src, p), mem.name, t.strip()))
+        nodes.append(('do', prims[s]))
+    return nodes + parse_stmts(mem, mem.body, mem.body_off, prims, conds)
+
+
+def coq_prog(nodes):
+    def one(nd):
+        if nd[0] == 'do':
+            return 'Do ' + nd[1]
+        return 'If %s %s %s' % (nd[1], coq_prog(nd[2]), coq_prog(nd[3]))
+    return '[' + '; '.join(one(x) for x in nodes) + ']'
+
+
+def flat(nodes):
+    out = []
+    for nd in nodes:
+        if nd[0] == 'do':
+            out.append(nd[1])
+        else:
+            out.append('if ' + nd[1] + ' {' + ' '.join(flat(nd[2])) + '}' + (' else {' + ' '.join(flat(nd[3])) + '}' if nd[3] else ''))
+    return out
+
+
+def step_lists():
+    """-> (coq text, report dict)"""
+    cpp = blank_comments(gen.read(CPP))
+    bf = blank_comments(gen.read(BF))
+    vt = blank_comments(gen.read(VT))
+    cv = blank_comments(gen.read(CVT))
+    any_raw = blank_comments(gen.read(ANY))
+    FB = r'function_base::'
+    fmembers = [
+        ('fb_copy_ctor', cpp, CPP, FB + r'function_base\s*\(\s*function_base\s+const\s*&\s*other\s*,[^)]*\)', 0, 1),
+        ('fb_move_ctor', cpp, CPP, FB + r'function_base\s*\(\s*function_base\s*&&\s*other\s*,[^)]*\)', 0, 1),
+        ('fb_dtor', cpp, CPP, FB + r'~function_base\s*\(\s*\)', 0, 1),
+        ('fb_op_assign_copy', cpp, CPP, FB + r'op_assign\s*\(\s*function_base\s+const\s*&\s*other\s*,[^)]*\)', 0, 1),
+        ('fb_op_assign_move', cpp, CPP, FB + r'op_assign\s*\(\s*function_base\s*&&\s*other\s*,[^)]*\)', 0, 1),
+        ('fb_destroy', cpp, CPP, FB + r'destroy\s*\(\s*\)', 0, 1),
+        ('fb_reset', cpp, CPP, FB + r'reset\s*\(\s*vtable\s+const\s*\*\s*empty_vptr\s*\)', 0, 1),
+        ('fb_swap', cpp, CPP, FB + r'swap\s*\(\s*function_base\s*&\s*f\s*\)', 0, 1),
+        ('bf_default_ctor', bf, BF, r'constexpr\s+basic_function\s*\(\s*\)', 0, 1),
+        ('bf_copy_ctor', bf, BF, r'\bbasic_function\s*\(\s*basic_function\s+const\s*&\s*other\s*\)', 0, 1),
+        ('bf_move_ctor', bf, BF, r'\bbasic_function\s*\(\s*basic_function\s*&&\s*other\s*\)', 0, 1),
+        ('bf_copy_assign', bf, BF, r'operator=\s*\(\s*basic_function\s+const\s*&\s*other\s*\)', 0, 1),
+        ('bf_move_assign', bf, BF, r'operator=\s*\(\s*basic_function\s*&&\s*other\s*\)', 0, 1),
+        ('bf_assign_null', bf, BF, r'void\s+assign\s*\(\s*std::nullptr_t\s*\)', 0, 1),
+        ('bf_assign', bf, BF, r'void\s+assign\s*\(\s*F\s*&&\s*f\s*\)', 0, 1),
+        ('bf_reset', bf, BF, r'void\s+reset\s*\(\s*\)', 0, 1),
+        ('vt_allocate', vt, VT, r'static\s+void\s*\*\s*allocate\s*\(\s*void\s*\*\s*storage\s*,\s*std::size_t\s+storage_size\s*\)', 0, 1),
+        ('vt_deallocate', vt, VT, r'static\s+void\s+_deallocate\s*\(\s*void\s*\*\s*obj\s*,\s*std::size_t\s+storage_size\s*,\s*bool\s+destroy\s*\)', 0, 1),
+        ('vt_copy', cv, CVT, r'static\s+void\s*\*\s*_copy\s*\(\s*void\s*\*\s*storage\s*,\s*std::size_t\s+storage_size\s*,\s*void\s+const\s*\*\s*src\s*,\s*bool\s+destroy\s*\)', 0, 1),
+    ]
+    smembers = [
+        ('ss_release', r'void\s+release\s*\(\s*\)', 0, 1),
+        ('ss_move_assign', r'void\s+move_assign\s*\(\s*movable_sbo_storage\s*&&\s*other\s*\)', 0, 1),
+        ('ss_move_assign_from_copyable', r'void\s+move_assign\s*\(\s*copyable_sbo_storage\s*<[^>]*>\s*&&\s*other\s*\)', 0, 1),
+        ('ss_dtor', r'~movable_sbo_storage\s*\(\s*\)', 0, 1),
+        ('ss_move_ctor', r'\bmovable_sbo_storage\s*\(\s*movable_sbo_storage\s*&&\s*other\s*\)', 0, 1),
+        ('ss_move_ctor_from_copyable', r'explicit\s+movable_sbo_storage\s*\(\s*copyable_sbo_storage\s*<[^>]*>\s*&&\s*other\s*\)', 0, 1),
+        ('ss_move_op_assign', r'operator=\s*\(\s*movable_sbo_storage\s*&&\s*other\s*\)', 0, 1),
+        ('ss_move_op_assign_from_copyable', r'operator=\s*\(\s*copyable_sbo_storage\s*<[^>]*>\s*&&\s*other\s*\)', 0, 1),
+        ('ss_store', r'void\s+store\s*\(\s*Ts\s*&&\s*\.\.\.\s*ts\s*\)', 0, 1),
+        ('ss_reset', r'void\s+reset\s*\(\s*\)', 0, 1),
+        ('cs_copy_assign', r'void\s+copy_assign\s*\(\s*copyable_sbo_storage\s+const\s*&\s*other\s*\)', 0, 1),
+        ('cs_copy_ctor', r'\bcopyable_sbo_storage\s*\(\s*copyable_sbo_storage\s+const\s*&\s*other\s*\)', 0, 1),
+        ('cs_copy_op_assign', r'operator=\s*\(\s*copyable_sbo_storage\s+const\s*&\s*other\s*\)', 0, 1),
+    ]
+    defs = []
+    report = {}
+    for (nm, src, file, sig, nth, cnt) in fmembers:
+        mem = find_member(src, file, nm, sig, nth, cnt)
+        prog = member_prog(mem, F_PRIMS, F_CONDS)
+        defs.append('Definition %s : prog := %s.' % (nm, coq_prog(prog)))
+        report[nm] = '%s:%d: %s' % (file.split('/')[-1], mem.line, ' '.join(flat(prog)))
+    # the storage classes end where namespace pika::execution::experimental::detail starts
+    for (nm, sig, nth, cnt) in smembers:
+        progs = []
+        for sbo in (True, False):
+            a = preprocess(any_raw, sbo)
+            cut = a.find('struct PIKA_EXPORT any_operation_state_holder_base')
+            if cut < 0:
+                raise TieError('any_sender.hpp: end of the storage classes not found')
+            mem = find_member(a[:cut], ANY, nm, sig, nth, cnt)
+            progs.append(member_prog(mem, S_PRIMS, S_CONDS))
+            line = mem.line
+        defs.append('Definition %s (sbo : bool) : prog :=\n  if sbo then %s\n  else %s.' % (nm, coq_prog(progs[0]), coq_prog(progs[1])))
+        report[nm] = 'any_sender.hpp:%d: [SBO] %s  [no SBO] %s' % (line, ' '.join(flat(progs[0])), ' '.join(flat(progs[1])))
+    # alignment is (not) looked at by the function family's placement decision
+    mem_al = find_member(vt, VT, 'vt_allocate', [x for x in fmembers if x[0] == 'vt_allocate'][0][3])
+    mem_de = find_member(vt, VT, 'vt_deallocate', [x for x in fmembers if x[0] == 'vt_deallocate'][0][3])
+    al_align = 'alignof' in mem_al.body
+    de_align = 'alignof' in mem_de.body
+    mu = re.search(r'union\s*\{\s*char\s+storage_init\s*;\s*mutable\s+unsigned\s+char\s+storage\s*\[\s*function_storage_size\s*\]\s*;\s*\}\s*;', bf)
+    if not mu:
+        raise TieError('%s: inline buffer declaration `union { char storage_init; mutable unsigned char storage[function_storage_size]; };` '
+                       'not found (an alignas on the buffer changes the misalignment finding: update the model)' % BF)
+    mo = re.search(r'vtable\s+const\s*\*\s*vptr\s*;\s*void\s*\*\s*object\s*;\s*union', bf)
+    if not mo:
+        raise TieError('%s: members `vtable const* vptr; void* object; union {...}` not found in this order' % BF)
+    report['function_buffer'] = '%s:%d: unsigned char storage[function_storage_size] in an anonymous union without alignas, after two pointer members' % (
+        BF.split('/')[-1], _lines_before(bf, mu.start()))
+    report['allocate_alignment_test'] = '%s:%d: vtable::allocate<T> %s alignof(T)' % (VT.split('/')[-1], mem_al.line, 'tests' if al_align else 'does NOT test')
+    report['deallocate_alignment_test'] = '%s:%d: vtable::_deallocate<T> %s alignof(T)' % (VT.split('/')[-1], mem_de.line, 'tests' if de_align else 'does NOT test')
+    conds = sorted(set(F_CONDS.values()) | set(S_CONDS.values()))
+    prims = []
+    for v in list(F_PRIMS.values()) + list(S_PRIMS.values()):
+        if v not in prims:
+            prims.append(v)
+    text = '''(* GENERATED by tools/genmods/c18.py from
+   %s
+   %s
+   %s
+   %s
+   %s — do not edit.
+   Step lists of the special members: statement order of the source.  Proofs/ErasedStepsProofs.v compares them with
+   the transcription the model was written from (Model/ErasedSteps.v); Model/ErasedBlocks.v interprets the
+   allocation-relevant ones (allocate / _deallocate / _copy / basic_function::assign). *)
+From Coq Require Import NArith List.
+From Pika Require Import Gen.GenErased.
+Import ListNotations.
+Inductive cond := %s.
+Inductive prim :=
+  %s.
+Inductive stmt := Do (p : prim) | If (c : cond) (th el : list stmt).
+Definition prog := list stmt.
+
+(* the inline buffer of function_base is an unsigned char array in an anonymous union without alignas that
+   follows two pointer members: its alignment is that of a pointer; vtable::allocate / _deallocate look at
+   alignof(T): *)
+Definition function_buffer_alignment : N := ptr_size.
+Definition allocate_tests_alignment : bool := %s.
+Definition deallocate_tests_alignment : bool := %s.
+
+%s
+''' % (CPP, BF, VT, CVT, ANY, ' | '.join(conds), '\n  '.join('| ' + p for p in prims), 'true' if al_align else 'false', 'true' if de_align else 'false',
+       '\n'.join(defs))
+    return text, report
 
 
 @gen.generator
@@ -139,6 +568,8 @@ Definition allocate_heap (size storage_size : N) : bool := %s.
 Definition deallocate_heap (size storage_size : N) : bool := %s.
 ''' % (ANY, BF, VT, cmp_coq(fop, 'size', 'emb'), cmp_coq(aop, 'align', 'algn'), res, algn, un_sz, an_sz, op_sz, fs,
        cmp_coq(al, 'size', 'storage_size'), cmp_coq(de, 'size', 'storage_size'))
+    stext, sreport = step_lists()
     changed = gen.write_if_changed('GenErased.v', text)
-    return {'changed': changed, 'fits': fop, 'aligned': aop, 'result': ret.strip(), 'alignment_ptrs': algn,
+    changed2 = gen.write_if_changed('GenErasedSteps.v', stext)
+    return {'steps': sreport, 'changed': changed, 'steps_changed': changed2, 'fits': fop, 'aligned': aop, 'result': ret.strip(), 'alignment_ptrs': algn,
             'embedded_ptrs': [un_sz, an_sz, op_sz], 'function_storage_ptrs': fs, 'allocate': al, 'deallocate': de}
